@@ -122,9 +122,7 @@ class Summary(object):
         self.child = child
         self.location = (SInt(child.summary_at.l), SInt(child.summary_at.c))
         self.name = '<summary %s>' % child.label
-
-    def __lt__(self, other):
-        return self.location < other.location
+    # (ordered among the bindings of a region by whatever the code's own Location defines: see make_visitor_class)
 
 
 def make_visitor_class():
@@ -133,13 +131,16 @@ def make_visitor_class():
     import supp.scope as S
     import supp.util as U
 
+    class Summary_(Summary, U.Location):
+        """a summary takes part in the region's ordering exactly like a binding: through the real Location"""
+
     class V(N.extract_visitor):
         def visit__Stmts(self, node):
             c = node.child
             c.visits.append(('stmts', self.flow))
             if core.choice(2) == 0:
                 # (a) effects appended to the current region
-                sm = Summary(c)
+                sm = Summary_(c)
                 c.repr = ('summary', sm, self.flow)
                 U.insert_loc(self.flow._names, sm)
             else:
@@ -158,7 +159,7 @@ def make_visitor_class():
             if c.effects:
                 # induction hypothesis for an expression with effects: same two representations as a statement list
                 if core.choice(2) == 0:
-                    sm = Summary(c)
+                    sm = Summary_(c)
                     c.repr = ('summary', sm, self.flow)
                     U.insert_loc(self.flow._names, sm)
                 else:
